@@ -9,29 +9,42 @@ import os
 import shutil
 import tempfile
 
+import re
+
 import bindgen
+import facetgen
 import fw
 
-LEAN_PROPS = ["NmlVerif.Props.C03"]
+LEAN_PROPS = ["NmlVerif.Props.C03", "NmlVerif.Props.C03Facets", "NmlVerif.Props.C03Tree", "NmlVerif.Props.C03File"]
 LEVEL = "proof"
-RULE = ("schema-conforming trees from the XSD value spaces (root = every one of the 199 types in turn, depth <= 3), then ONE "
-        "injected violation at a random descendant: required attribute removed / value outside its pattern, enumeration or range / "
-        "required child removed / required choice emptied; own and inherited members, depths 0-3. non-trivial = libxml2 rejects "
-        "the written XML (the injection really is a schema violation); distinct = distinct (root type, position class, member, kind)")
+RULE = ("(1) schema-conforming trees from the XSD value spaces (root = every one of the 199 types in turn, depth <= 3; free strings "
+        "with XML-special characters, pattern values with every XSD space), then ONE injected violation at a random descendant: "
+        "required attribute removed / value outside its pattern or enumeration (a legal value plus a trailing or leading line feed "
+        "or blank, non-ASCII digits, empty, garbage) / number outside its range / required child removed / too many children / "
+        "required choice emptied; own and inherited members, depths 0-3. (2) simple-type stream: for each of the 38 schema simple "
+        "types ~40 boundary values through the real validate_<T>, the Lean model of it, libxml2 and the Lean value space. (3) files: "
+        "documents with one injection at every depth, written, judged by libxml2 against the bundled XSD and by is_valid_neuroml2 / "
+        "validate_neuroml2. non-trivial = libxml2 rejects (the injection really is a schema violation); distinct = distinct (root "
+        "type, position class, member, kind, value class)")
 TRUST = [
-    "translators nml_extract/emit_bindings and xsd_extract/emit_xsd (AST / XSD shape recognition)",
-    "simple-type validity is an abstract predicate in the theorems; the facets of both sides are compared syntactically (facets_agree); Python `re` vs XSD regex semantics trusted for the dialect used",
-    "libxml2's XSD validator (lxml) is the oracle for 'is a schema violation'",
+    "translators nml_extract/emit_bindings, xsd_extract/emit_xsd, validators_extract (AST / XSD shape recognition; refuse what they do not recognise)",
+    "CPython's re: assumed to find a match iff one exists, `$` holding at the end and before one trailing line feed (EngineSpec); which of two matches it returns is not modelled",
+    "libxml2's XSD validator (lxml) is the oracle for 'is a schema violation'; the Lean value spaces (xsdValid) are compared with it on every boundary value",
+    "numeric members: the validators are modelled on values (exact rationals); the lexical form written for them (gds_format_*) is trusted and sampled",
 ]
 ASSUMPTIONS = [
     "known finding C03:choice-required: the generated validate_ has no item for 'at least one branch of a required choice group' (Layout, GateKS, ...)",
-    "file-level wrappers is_valid_neuroml2 / validate_neuroml2 are sampled (load + validate), not modelled",
+    "known finding C03:pattern-unicode-space: Python's \\s is wider than the schema's",
+    "known finding C03:builtin-int-range: validate_NonNegativeInteger / validate_PositiveInteger do not check the range",
+    "file-level wrappers: modelled as build-then-validate (Props/C03File.lean); include resolution is C06's subject and not exercised here",
 ]
 
 
 def regenerate(ctx):
     ctx.ir = bindgen.IR()
-    return list(ctx.ir.gaps)
+    gaps = list(ctx.ir.gaps)
+    info, vg = facetgen.validators(ctx, ctx.ir)
+    return gaps + list(vg)
 
 
 def positions(ir, o, cls, depth=0, path=""):
@@ -99,21 +112,42 @@ def options_at(gen, ir, d, dc):
             if a["use"] == "required" and getattr(d, fa["member"]) is not None:
                 options.append(("required-attr", fa["member"], t["name"], inherited, None))
             st = gen.ST.get(a["type"])
-            if st is not None and getattr(d, fa["member"]) is not None:
+            cur = getattr(d, fa["member"])
+            if st is not None and cur is not None:
                 base = a["type"]
                 k = 0
                 while base in gen.ST and k < 10:
                     base, k = gen.ST[base]["base"], k + 1
                 if base in ("xs:double", "xs:float"):
                     if st["enums"]:
-                        badv = 0.5
-                    elif "maxInclusive" in st["bounds"]:
-                        badv = float(st["bounds"]["maxInclusive"]) + 1.0
+                        cands = [0.5, 2.0, -1.0]
                     else:
-                        badv = -1.0
-                    options.append(("facet", fa["member"], t["name"], inherited, badv))
-                elif base == "xs:string" and (st["patterns"] or st["enums"]):
-                    options.append(("facet", fa["member"], t["name"], inherited, "!! not valid !!"))
+                        cands = []
+                        b = st["bounds"]
+                        if "maxInclusive" in b:
+                            cands += [float(b["maxInclusive"]) + 1.0, float(b["maxInclusive"]) + 2.0 ** -10]
+                        if "minInclusive" in b:
+                            cands += [float(b["minInclusive"]) - 1.0, float(b["minInclusive"]) - 2.0 ** -10]
+                        if "minExclusive" in b:
+                            cands += [float(b["minExclusive"]), float(b["minExclusive"]) - 1.0]
+                        if "maxExclusive" in b:
+                            cands += [float(b["maxExclusive"]), float(b["maxExclusive"]) + 1.0]
+                    for badv in cands:
+                        options.append(("facet", fa["member"], t["name"], inherited, badv))
+                elif base == "xs:string" and (st["patterns"] or st["enums"]) and isinstance(cur, str):
+                    cands = [cur + "\n", "\n" + cur, cur + " ", " " + cur, "!! not valid !!", cur + cur + "-", cur.swapcase() + "!"]
+                    tr = cur.translate(str.maketrans("0123456789", "\u0660\u0661\u0662\u0663\u0664\u0665\u0666\u0667\u0668\u0669"))
+                    if tr != cur:
+                        cands.append(tr)
+                    if st["patterns"] and not re.fullmatch(st["patterns"][0], ""):
+                        cands.append("")
+                    if a["type"].startswith("Nml2Quantity"):
+                        m = re.match(r"[-0-9.eE]*", cur)
+                        cands.append(cur[:m.end()] + "\u00a0" + cur[m.end():].lstrip())     # known finding: Python-only space
+                    for badv in cands:
+                        options.append(("facet", fa["member"], t["name"], inherited, badv))
+                elif base in ("xs:nonNegativeInteger", "xs:positiveInteger") and isinstance(cur, int):
+                    options.append(("facet", fa["member"], t["name"], inherited, -1))      # known finding: builtin range
         for e in emit_elems(t):
             fk = bytag.get(e["tag"])
             if fk is None:
@@ -122,6 +156,8 @@ def options_at(gen, ir, d, dc):
             n = len(v) if isinstance(v, list) else (0 if v is None else 1)
             if not e["choice"] and e["lo"] >= 1 and n >= 1:
                 options.append(("required-child", fk["member"], t["name"], inherited, None))
+            if not e["choice"] and e["hi"] is not None and e["hi"] >= 1 and isinstance(v, list) and n >= 1:
+                options.append(("too-many", fk["member"], t["name"], inherited, e["hi"] + 1 - n))
         if bindgen.emit_xsd.has_required_choice(t["content"]):
             options.append(("required-choice", None, t["name"], inherited,
                             [bytag[e["tag"]]["member"] for e in emit_elems(t) if e["choice"] and e["tag"] in bytag]))
@@ -137,17 +173,23 @@ def apply_option(d, opt):
     elif kind == "required-child":
         v = getattr(d, member)
         setattr(d, member, [] if isinstance(v, list) else None)
+    elif kind == "too-many":
+        v = getattr(d, member)
+        for _ in range(max(1, badv)):
+            v.append(copy.deepcopy(v[0]))
     else:
         for m in badv:
             v = getattr(d, m)
             setattr(d, m, [] if isinstance(v, list) else None)
 
 
-def inject(gen, ir, rng, root, root_cls):
+def inject(gen, ir, rng, root, root_cls, want_depth=None):
     """apply one violation in place; -> dict describing it or None"""
     pos = positions(ir, root, root_cls)
     # weighted order: deeper positions first more often (the property is about ANY depth)
     pos = sorted(pos, key=lambda p: -(rng.random() * (p[2] + 1) ** 2))
+    if want_depth is not None:
+        pos = [p for p in pos if p[2] == want_depth] + [p for p in pos if p[2] != want_depth]
     for (d, dc, depth, path) in pos:
         options = options_at(gen, ir, d, dc)
         if not options:
@@ -159,8 +201,44 @@ def inject(gen, ir, rng, root, root_cls):
         opt = rng.choice(inh if inh and rng.random() < 0.6 else options)
         apply_option(d, opt)
         kind, member, owner, inherited, badv = opt
-        return {"kind": kind, "member": member, "owner": owner, "inherited": inherited, "at": dc, "depth": depth, "path": path}
+        return inj_desc(opt, dc, depth, path)
     return None
+
+
+def inj_desc(opt, dc, depth, path, **extra):
+    kind, member, owner, inherited, badv = opt
+    d = {"kind": kind, "member": member, "owner": owner, "inherited": inherited, "at": dc, "depth": depth, "path": path}
+    if kind == "facet":
+        d["value"] = badv
+        d["vclass"] = value_class(badv)
+    d.update(extra)
+    return d
+
+
+def plain_spaces(s):
+    return all((not c.isspace()) or c in " \t\n\r" for c in s)
+
+
+def value_class(v):
+    if isinstance(v, bool) or isinstance(v, int):
+        return "int"
+    if isinstance(v, float):
+        return "float"
+    if not plain_spaces(v):
+        return "python-only-space"
+    if v.endswith("\n"):
+        return "trailing-lf"
+    if v.startswith("\n"):
+        return "leading-lf"
+    if v.endswith(" "):
+        return "trailing-blank"
+    if v.startswith(" "):
+        return "leading-blank"
+    if v == "":
+        return "empty"
+    if any(ord(c) > 127 for c in v):
+        return "non-ascii"
+    return "other"
 
 
 def directed(ctx, ir, mod, gen, lines, pending):
@@ -200,10 +278,7 @@ def directed(ctx, ir, mod, gen, lines, pending):
                     if i >= len(opts):
                         continue
                     apply_option(d, opts[i])
-                    kind, member, owner, inherited, badv = opts[i]
-                    check_one(ctx, ir, mod, root_cls, o,
-                              {"kind": kind, "member": member, "owner": owner, "inherited": inherited, "at": dc,
-                               "depth": depth, "path": path, "directed": True}, lines, pending)
+                    check_one(ctx, ir, mod, root_cls, o, inj_desc(opts[i], dc, depth, path, directed=True), lines, pending)
                 break
 
 
@@ -211,7 +286,7 @@ def emit_elems(t):
     return bindgen.emit_xsd.xsd_extract.effective_elems(t["content"])
 
 
-CORPUS = ["segment-without-id", "empty-layout"]
+CORPUS = ["segment-without-id", "empty-layout", "nbsp-before-unit", "segment-id-minus-one", "id-with-trailing-lf", "morphology-without-segments"]
 
 
 def corpus_objects(mod):
@@ -223,28 +298,67 @@ def corpus_objects(mod):
                                              proximal=mod.Point3DWithDiam(x=0.0, y=0.0, z=0.0, diameter=1.0)))
     yield ("NeuroMLDocument", d, {"kind": "required-attr", "member": "id", "owner": "BaseNonNegativeIntegerId",
                                   "inherited": True, "at": "Segment", "depth": 3, "path": ".cells[0].morphology[0].segments[0]"})
+    # known finding C03:pattern-unicode-space: a no-break space between number and unit, two levels down
+    d2 = mod.NeuroMLDocument(id="d")
+    d2.iaf_cells.append(mod.IafCell(id="a", leak_reversal="-70\u00a0mV", thresh="1mV", reset="1mV", C="1pF", leak_conductance="1nS"))
+    yield ("NeuroMLDocument", d2, {"kind": "facet", "member": "leak_reversal", "owner": "IafCell", "inherited": False, "at": "IafCell",
+                                   "depth": 1, "path": ".iaf_cells[0]", "value": "-70\u00a0mV", "vclass": "python-only-space"})
+    # known finding C03:builtin-int-range: a segment with id -1 (in memory; reading such a file raises)
+    d3 = mod.NeuroMLDocument(id="d")
+    c3 = mod.Cell(id="c", morphology=mod.Morphology(id="m"))
+    d3.cells.append(c3)
+    c3.morphology.segments.append(mod.Segment(id=-1, distal=mod.Point3DWithDiam(x=0.0, y=0.0, z=0.0, diameter=1.0),
+                                              proximal=mod.Point3DWithDiam(x=0.0, y=0.0, z=0.0, diameter=1.0)))
+    yield ("NeuroMLDocument", d3, {"kind": "facet", "member": "id", "owner": "BaseNonNegativeIntegerId", "inherited": True, "at": "Segment",
+                                   "depth": 3, "path": ".cells[0].morphology[0].segments[0]", "value": -1, "vclass": "int"})
+    # must be REJECTED (seeded change C03-1): an inherited id that is legal except for one trailing line feed
+    d4 = mod.NeuroMLDocument(id="d")
+    n4 = mod.Network(id="n")
+    d4.networks.append(n4)
+    n4.populations.append(mod.Population(id="pop0\n", component="c", size=1))
+    yield ("NeuroMLDocument", d4, {"kind": "facet", "member": "id", "owner": "Base", "inherited": True, "at": "Population",
+                                   "depth": 2, "path": ".networks[0].populations[0]", "value": "pop0\n", "vclass": "trailing-lf"})
+    # must be REJECTED: a required LIST child missing two levels down (morphology without segments)
+    d5 = mod.NeuroMLDocument(id="d")
+    d5.cells.append(mod.Cell(id="c", morphology=mod.Morphology(id="m")))
+    yield ("NeuroMLDocument", d5, {"kind": "required-child", "member": "segments", "owner": "Morphology", "inherited": False, "at": "Morphology",
+                                   "depth": 2, "path": ".cells[0].morphology[0]"})
+    # must be REJECTED: too many children of a bounded list member is not expressible for most types; a second value of
+    # a single-valued member cannot be built in memory; the sweep below covers `too-many` where the schema bounds a list
     p = mod.Population(id="p", component="c", size=1, layout=mod.Layout())
     yield ("Population", p, {"kind": "required-choice", "member": None, "owner": "Layout", "inherited": False,
                              "at": "Layout", "depth": 1, "path": ".layout[0]"})
 
 
+def failure_key(inj):
+    kind = inj["kind"]
+    if kind == "required-choice":
+        return "C03:choice-required"
+    if kind == "facet" and inj.get("vclass") == "python-only-space":
+        return "C03:pattern-unicode-space"
+    if kind == "facet" and inj.get("vclass") == "int":
+        return "C03:builtin-int-range"
+    return "C03:%s-accepted:%s" % (kind, "inherited" if inj["inherited"] else "own")
+
+
 def check_one(ctx, ir, mod, root_cls, o, inj, lines, pending):
     ok_x, msg, text = bindgen.xsd_verdict(o, root_cls)
     v, vmsg = real_validate(o)
-    case = {"root": root_cls, "injection": inj, "xml": text[:1500]}
-    key4 = (root_cls, (inj or {}).get("at"), (inj or {}).get("member"), (inj or {}).get("kind"))
+    case = {"root": root_cls, "injection": inj, "xml": text[:8000]}
+    key4 = (root_cls, (inj or {}).get("at"), (inj or {}).get("member"), (inj or {}).get("kind"), (inj or {}).get("vclass"))
     ctx.seen(key4 + (text,), nontrivial=(inj is not None and not ok_x))
     if inj is None:
         ctx.count("valid-tree")
     else:
         ctx.count("inject:%s:%s:depth%d" % (inj["kind"], "inherited" if inj["inherited"] else "own", min(inj["depth"], 3)))
+        if inj["kind"] == "facet":
+            ctx.count("facet-value:%s" % inj.get("vclass"))
         if ok_x:
             ctx.count("injection-still-schema-valid")
         elif v:
-            kind = inj["kind"]
-            key = "C03:choice-required" if kind == "required-choice" else "C03:%s-accepted:%s" % (kind, "inherited" if inj["inherited"] else "own")
-            ctx.fail(key, "libxml2 rejects the written XML (%s) but validate(recursive=True) accepts: %s.%s at %s depth %d"
-                     % (msg[:120], inj["owner"], inj["member"], inj["at"], inj["depth"]), case)
+            ctx.fail(failure_key(inj), "libxml2 rejects the written XML (%s) but validate(recursive=True) accepts: %s.%s at %s depth %d%s"
+                     % (msg[:120], inj["owner"], inj["member"], inj["at"], inj["depth"],
+                        (" value %r" % (inj["value"],)) if "value" in inj else ""), case)
     # correspondence with the model walk
     try:
         desc = bindgen.dump(ir, mod, o, root_cls)
@@ -273,7 +387,7 @@ def flush(ctx, lines, pending):
 def run(ctx):
     ir = getattr(ctx, "ir", None) or bindgen.IR()
     import neuroml.nml.nml as mod
-    gen = bindgen.ValidGen(ir, ctx.rng, max_depth=3)
+    gen = facetgen.ValidGen2(ir, ctx.rng, max_depth=3)
     lines, pending = [], []
     for (rc, o, inj) in corpus_objects(mod):
         check_one(ctx, ir, mod, rc, o, inj, lines, pending)
@@ -300,43 +414,299 @@ def run(ctx):
                 ctx.count("nothing-to-violate")
                 continue
             check_one(ctx, ir, mod, cls, o, inj, lines, pending)
+        # every KIND of violation applicable to the type itself, once each (kinds such as "required child of a list
+        # member" exist for few types and are rarely drawn by the random injection above)
+        try:
+            probe = gen.obj(cls)
+            kinds = sorted({o2[0] for o2 in options_at(gen, ir, probe, cls)})
+        except Exception:
+            kinds = []
+        for kind in kinds:
+            try:
+                o = gen.obj(cls)
+            except Exception:
+                continue
+            opts = [o2 for o2 in options_at(gen, ir, o, cls) if o2[0] == kind]
+            if not opts:
+                continue
+            opt = ctx.rng.choice(opts)
+            apply_option(o, opt)
+            check_one(ctx, ir, mod, cls, o, inj_desc(opt, cls, 0, "", sweep=True), lines, pending)
         if len(lines) > 3000:
             flush(ctx, lines, pending)
             lines, pending = [], []
     flush(ctx, lines, pending)
-    # file-level wrappers
+    # simple types: boundary values through the real validators, their model, libxml2 and the Lean value spaces
+    info, _ = facetgen.validators(ctx, ir)
+    if info is not None:
+        facetgen.simple_stream(ctx, ir, mod, info, "C03", n_valid=ctx.n(3, 8))
+    file_stream(ctx, ir, mod, gen)
+    switch_stream(ctx, ir, mod, gen)
+    ctx.sample({"root": "NeuroMLDocument", "injection": {"kind": "required-attr", "member": "id", "owner": "BaseNonNegativeIntegerId", "at": "Segment", "depth": 3}})
+    ctx.sample({"root": "IafCell", "injection": {"kind": "facet", "member": "id", "owner": "Base", "value": "a\n", "vclass": "trailing-lf"}})
+    ctx.extra["table_obligations"] = ["tables_agree", "facets_agree", "validators_agree", "py_types_functional", "pattern_check_shape",
+                                      "nl_free_types"]
+
+
+def switch_stream(ctx, ir, mod, gen):
+    """the verdict is a function of the tree only: the same violated trees / files, judged with build-time validation
+    on, after neuroml.disable_build_time_validation(), and after enabling it again (process state restored whatever
+    happens)"""
+    import neuroml
     import neuroml.utils as U
     import neuroml.writers as W
+    was = neuroml.get_build_time_validation()
+    cases = []
+    for (rc, o, inj) in corpus_objects(mod):
+        cases.append((rc, o, inj))
+    classes = [c["name"] for c in ir.table["classes"]]
+    for i in range(ctx.n(30, 200) * ctx.search_mult):
+        cls = ctx.rng.choice(classes) if i % 3 else "NeuroMLDocument"
+        try:
+            o = gen.obj(cls)
+        except Exception:
+            continue
+        if cls == "NeuroMLDocument":
+            o.includes = []
+        inj = inject(gen, ir, ctx.rng, o, cls) if i % 5 else None
+        cases.append((cls, o, inj))
     tmp = tempfile.mkdtemp(prefix="verif_c03_")
     try:
-        for i in range(ctx.n(6, 40)):
-            d = gen.obj("NeuroMLDocument")
-            inj = inject(gen, ir, ctx.rng, d, "NeuroMLDocument") if i % 2 else None
-            p = os.path.join(tmp, "f%d.nml" % i)
+        files = []
+        for k, (cls, o, inj) in enumerate(cases):
+            if cls == "NeuroMLDocument" and len(files) < ctx.n(8, 40):
+                p = os.path.join(tmp, "s%d.nml" % k)
+                try:
+                    W.NeuroMLWriter.write(o, p)
+                    files.append((k, p))
+                except Exception:
+                    pass
+        verdicts = {}
+        for state in ("enabled", "disabled", "re-enabled"):
             try:
-                W.NeuroMLWriter.write(d, p)
+                if state == "disabled":
+                    neuroml.disable_build_time_validation()
+                else:
+                    neuroml.enable_build_time_validation()
+                verdicts[state] = ([real_validate(o)[0] for (_, o, _) in cases], [file_verdicts(U, p) for (_, p) in files])
+            finally:
+                neuroml.enable_build_time_validation()
+        base_t, base_f = verdicts["enabled"]
+        for state in ("disabled", "re-enabled"):
+            vt, vf = verdicts[state]
+            for k, ((cls, o, inj), a, b) in enumerate(zip(cases, base_t, vt)):
+                ctx.seen(("switch", state, k, cls, str(inj)), nontrivial=(not a))
+                ctx.count("switch:%s:%s" % (state, "rejected" if a else "accepted"))
+                if a != b:
+                    ok_x, msg, text = bindgen.xsd_verdict(o, cls)
+                    ctx.fail("C03:verdict-depends-on-build-time-switch",
+                             "validate(recursive=True) %s the tree with build-time validation enabled but %s it when the switch is %s "
+                             "(libxml2 on the written XML: %s); injection %s" % ("accepts" if a else "rejects", "accepts" if b else "rejects",
+                                                                              state, "valid" if ok_x else "invalid", inj),
+                             {"stream": "switch", "state": state, "root": cls, "injection": inj, "xml": text[:8000]})
+            for (k, p), a, b in zip(files, base_f, vf):
+                ctx.count("switch-file:%s" % state)
+                if a != b:
+                    ctx.fail("C03:verdict-depends-on-build-time-switch",
+                             "is_valid_neuroml2 / validate_neuroml2 -> %s with build-time validation enabled but %s when the switch is %s; injection %s"
+                             % (a, b, state, cases[k][2]),
+                             {"stream": "switch-file", "state": state, "injection": cases[k][2], "xml": open(p).read()[:8000]})
+    finally:
+        if was:
+            neuroml.enable_build_time_validation()
+        else:
+            neuroml.disable_build_time_validation()
+        shutil.rmtree(tmp, ignore_errors=True)
+
+
+def file_verdicts(U, p):
+    """(is_valid_neuroml2 verdict, validate_neuroml2 verdict) as small enums"""
+    try:
+        a = U.is_valid_neuroml2(p)
+        a = True if a is True else (False if a is False else "returned:%r" % (a,))
+    except BaseException as e:      # the loader calls sys.exit() when an included file is missing
+        a = "raised:" + type(e).__name__
+    try:
+        U.validate_neuroml2(p)
+        b = "ok"
+    except ValueError:
+        b = "ValueError"
+    except BaseException as e:
+        b = "raised:" + type(e).__name__
+    return a, b
+
+
+def file_case(ctx, ir, mod, d, inj, tmp, name, sch, lines, pending):
+    import neuroml.loaders as L
+    import neuroml.utils as U
+    import neuroml.writers as W
+    from lxml import etree
+    p = os.path.join(tmp, name)
+    try:
+        W.NeuroMLWriter.write(d, p)
+        doc = etree.parse(p)
+    except Exception as e:
+        ctx.count("file:write-or-parse-raised")
+        return
+    okx = bool(sch.validate(doc))
+    msg = "" if okx else str(sch.error_log.last_error)[:160]
+    a, b = file_verdicts(U, p)
+    text = open(p).read()
+    case = {"stream": "file", "injection": inj, "xml": text[:8000], "is_valid_neuroml2": a, "validate_neuroml2": b}
+    ctx.seen(("file", text), nontrivial=not okx)
+    ctx.count("file:depth%s" % ("-none" if inj is None else min(inj["depth"], 4)))
+    ctx.count("file:is_valid=%s" % a)
+    ctx.count("file:validate=%s" % b)
+    if not okx:
+        if a is True or b == "ok":
+            key = failure_key(inj) if inj else "C03:file-wrapper-accepts:uninjected"
+            if key.startswith("C03:") and key.split(":")[1] not in ("choice-required", "pattern-unicode-space", "builtin-int-range"):
+                key = "C03:file-wrapper-accepts:" + (inj["kind"] if inj else "none")
+            ctx.fail(key, "libxml2 rejects the file (%s) but is_valid_neuroml2 -> %s, validate_neuroml2 -> %s; injection %s"
+                     % (msg, a, b, inj), case)
+        if a is not True and a is not False:
+            ctx.count("file:invalid-reported-by-raising")
+    else:
+        if a is not True or b != "ok":
+            ctx.fail("C03:file-wrapper-false-alarm", "libxml2 accepts the file but is_valid_neuroml2 -> %s, validate_neuroml2 -> %s" % (a, b), case)
+    # the two wrappers must agree with each other: is_valid_neuroml2 is False exactly when validate_neuroml2 raises ValueError
+    if (a is False) != (b == "ValueError") or (a is True) != (b == "ok"):
+        ctx.fail("C03:file-wrappers-disagree", "is_valid_neuroml2 -> %s but validate_neuroml2 -> %s" % (a, b), case)
+    # model: the file verdict is the walk over the tree that loading builds
+    if a in (True, False):
+        try:
+            d2 = L.read_neuroml2_file(p, include_includes=True, verbose=False, optimized=True)
+            desc = bindgen.dump(ir, mod, d2, "NeuroMLDocument")
+            bad = simple_bad_pairs(ir, mod, d2, "NeuroMLDocument")
+            lines.append(json.dumps({"op": "validate", "fuel": 14, "obj": bindgen.enc_obj(ir, desc), "bad": bad}))
+            pending.append((case, a))
+        except Exception as e:
+            ctx.disagree("file-dump", case, repr(e)[:200], None)
+
+
+TWO_MORPHOLOGIES = """<neuroml xmlns="http://www.neuroml.org/schema/neuroml2" id="d">
+  <cell id="c">
+    <morphology id="m1"><segment id="0"><proximal x="0" y="0" z="0" diameter="1"/><distal x="1" y="0" z="0" diameter="1"/></segment></morphology>
+    <morphology id="m2"><segment id="0"><proximal x="0" y="0" z="0" diameter="1"/><distal x="1" y="0" z="0" diameter="1"/></segment></morphology>
+  </cell>
+</neuroml>
+"""
+
+
+def text_case(ctx, text, tmp, name, sch, inj):
+    """a file given as TEXT (violations that cannot be built in memory: an element occurring twice where the member is
+    single-valued).  The loader keeps the last one, so the loaded tree is valid: known finding."""
+    import neuroml.utils as U
+    from lxml import etree
+    p = os.path.join(tmp, name)
+    with open(p, "w") as fh:
+        fh.write(text)
+    try:
+        okx = bool(sch.validate(etree.parse(p)))
+    except Exception:
+        return
+    msg = "" if okx else str(sch.error_log.last_error)[:160]
+    a, b = file_verdicts(U, p)
+    case = {"stream": "file", "injection": inj, "xml": text[:8000], "is_valid_neuroml2": a, "validate_neuroml2": b}
+    ctx.seen(("file-text", text), nontrivial=not okx)
+    ctx.count("file:xml-duplicate:%s" % ("schema-invalid" if not okx else "still-valid"))
+    if not okx and (a is True or b == "ok"):
+        ctx.fail("C03:file-too-many-single-child", "libxml2 rejects the file (%s) but is_valid_neuroml2 -> %s, validate_neuroml2 -> %s: "
+                 "<%s> occurs twice in <%s>" % (msg, a, b, inj["tag"], inj["parent"]), case)
+    if okx and (a is not True or b != "ok"):
+        ctx.fail("C03:file-wrapper-false-alarm", "libxml2 accepts the file but is_valid_neuroml2 -> %s, validate_neuroml2 -> %s" % (a, b), case)
+
+
+def file_stream(ctx, ir, mod, gen):
+    """documents with one injected violation at every depth, written to disk: libxml2 against the bundled XSD versus
+    is_valid_neuroml2 / validate_neuroml2 versus the model walk on the tree loading builds"""
+    from lxml import etree
+    path, _ = bindgen.emit_xsd.xsd_extract.current_xsd(fw.REPO)
+    sch = etree.XMLSchema(etree.parse(path))
+    tmp = tempfile.mkdtemp(prefix="verif_c03_")
+    lines, pending = [], []
+    try:
+        # corpus: the three known findings and a trailing line feed, as files
+        for k, (rc, o, inj) in enumerate(corpus_objects(mod)):
+            if rc == "NeuroMLDocument":
+                file_case(ctx, ir, mod, o, inj, tmp, "corpus%d.nml" % k, sch, lines, pending)
+        # corpus, known finding C03:file-too-many-single-child: two <morphology> elements in one <cell>
+        text_case(ctx, TWO_MORPHOLOGIES, tmp, "corpus_dup.nml", sch, {"kind": "xml-duplicate", "tag": "morphology", "parent": "cell"})
+        n = ctx.n(24, 160) * ctx.search_mult
+        for i in range(n):
+            try:
+                d = gen.obj("NeuroMLDocument")
             except Exception:
-                ctx.count("file-write-raised")
+                ctx.count("gen-failed")
                 continue
-            okx, msg, _ = bindgen.xsd_verdict(d, "NeuroMLDocument")
-            try:
-                verdict = U.is_valid_neuroml2(p)
-            except Exception as e:
-                verdict = False
-            ctx.count("file-wrapper-cases")
-            ctx.seen(("file", i, str(inj)))
-            if not okx and verdict and inj and inj["kind"] != "required-choice":
-                ctx.fail("C03:file-wrapper-accepts", "is_valid_neuroml2 accepts a schema-invalid file: %s" % (inj,), {"injection": inj})
+            d.includes = []      # include resolution is C06's subject (a missing included file makes the loader sys.exit())
+            want = i % 6
+            inj = None if want == 5 else inject(gen, ir, ctx.rng, d, "NeuroMLDocument", want_depth=want)
+            file_case(ctx, ir, mod, d, inj, tmp, "f%d.nml" % i, sch, lines, pending)
+            if inj is None:
+                # "too many children" at the level of the FILE: one element of the valid file written twice
+                p = os.path.join(tmp, "f%d.nml" % i)
+                if os.path.exists(p):
+                    try:
+                        doc = etree.parse(p)
+                        els = [e for e in doc.getroot().iter() if isinstance(e.tag, str) and e.getparent() is not None]
+                        if els:
+                            e = ctx.rng.choice(els)
+                            e.addnext(copy.deepcopy(e))
+                            text_case(ctx, etree.tostring(doc, encoding="unicode"), tmp, "f%d_dup.nml" % i, sch,
+                                      {"kind": "xml-duplicate", "tag": bindgen.localname(e.tag), "parent": bindgen.localname(e.getparent().tag)})
+                    except Exception as ex:
+                        ctx.count("file:dup-failed")
+        flush(ctx, lines, pending)
     finally:
         shutil.rmtree(tmp, ignore_errors=True)
-    ctx.sample({"root": "NeuroMLDocument", "injection": {"kind": "required-attr", "member": "id", "owner": "BaseNonNegativeIntegerId", "at": "Segment", "depth": 3}})
-    ctx.extra["table_obligations"] = ["tables_agree", "facets_agree"]
 
 
 def replay(ctx, payload):
     from lxml import etree
     import neuroml.nml.nml as mod
     case = payload["case"]
+    if case.get("stream") == "simple":
+        return facetgen.replay_simple(mod, case, "C03")
+    if case.get("stream") in ("switch", "switch-file"):
+        import neuroml
+        import neuroml.utils as U
+        tmp = tempfile.mkdtemp(prefix="verif_c03_")
+        try:
+            if case["stream"] == "switch":
+                o = getattr(mod, case["root"]).factory()
+                o.build(etree.fromstring(case["xml"].encode("utf-8")))
+                judge = lambda: real_validate(o)[0]
+            else:
+                p = os.path.join(tmp, "replay.nml")
+                with open(p, "w") as fh:
+                    fh.write(case["xml"])
+                judge = lambda: file_verdicts(U, p)
+            try:
+                neuroml.enable_build_time_validation()
+                a = judge()
+                neuroml.disable_build_time_validation()
+                b = judge()
+            finally:
+                neuroml.enable_build_time_validation()
+        finally:
+            shutil.rmtree(tmp, ignore_errors=True)
+        return {"fails": a != b, "verdict_with_switch_on": a, "verdict_with_switch_off": b}
+    if case.get("stream") == "file":
+        import neuroml.utils as U
+        tmp = tempfile.mkdtemp(prefix="verif_c03_")
+        try:
+            p = os.path.join(tmp, "replay.nml")
+            with open(p, "w") as fh:
+                fh.write(case["xml"])
+            path, _ = bindgen.emit_xsd.xsd_extract.current_xsd(fw.REPO)
+            sch = etree.XMLSchema(etree.parse(path))
+            okx = bool(sch.validate(etree.parse(p)))
+            a, b = file_verdicts(U, p)
+        finally:
+            shutil.rmtree(tmp, ignore_errors=True)
+        fails = (not okx and (a is True or b == "ok")) or (okx and (a is not True or b != "ok"))
+        return {"fails": bool(fails), "libxml2_valid": okx, "is_valid_neuroml2": a, "validate_neuroml2": b}
     root = etree.fromstring(case["xml"].encode("utf-8"))
     o = getattr(mod, case["root"]).factory().build(root)
     v, vm = real_validate(o)
